@@ -28,6 +28,11 @@ CLAIMED["C03"] = dict(
    text="Exploration: 12k (quick) / 120k (thorough) match shapes (1-5 arms, or-alternatives, patterns nested <= 3 with ellipsis / rest capture / typed ids / map patterns / guards / else, 1-2 subjects) are each run against a subject universe of scalars, ranges, maps and ALL lists and tuples of size <= 2 over six element kinds plus a seeded sample (thorough: all) of size 3; plus 12k / 120k unpacking programs (multi-assignment with holes from lists, tuples, ranges, strings, generators, scalars; for with several arguments). Arm selection, bindings, single evaluation of the subject and fall-through to null are compared with the reference interpreter per (shape, subject).",
    note="Trusts M's matching rules (transcribed from the guide's match chapter). Sequence patterns against strings/ranges/maps, named rest of lists, Range x Indexable and names bound in only some alternatives are not judged. Known shapes F26, C03-size-null, C03-map-null excluded by construction.",
    design="§4 C03")
+CLAIMED["C04"] = dict(
+   technique="fault-injection property-based testing: proptest-generated try/catch/finally skeletons around call carriers with a planted fault, differential against an independent reference interpreter, plus a VM stack-residue post-condition through a read-only hook",
+   text="Exploration: 25k (quick) / 300k (thorough) generated programs plus 400 / 4000 per fault kind: nested try / typed catches / untyped catch (value, rethrow, new throw) / finally skeletons (depth <= 5) around function calls, each / keep / fold callbacks, generators, `@+` overloads and `@display` from interpolation, with one of 18 planted fault kinds (three kinds of thrown values and 15 runtime errors incl. errors inside half-built strings, lists, tuples, maps and call arguments, arity errors). Marker trace, handler selection, finally placement/value, state after the catch, uncaught message and outcome class are compared with the reference interpreter; VM stacks must be empty after successful runs.",
+   note="Trusts M's unwinding rules (guide: 'Errors'). Texts of caught runtime errors are never printed. Known shapes F28, F30 and C04-gen-typed are excluded by construction and replayed as known findings.",
+   design="§4 C04")
 NOT_YET = {}
 props=[json.loads(l) for l in open('/verif/properties.jsonl')]
 checks=[]; na=[]
